@@ -61,6 +61,7 @@ def ledger(tier, seed):
             scs.append(s)
     scs += gens.ledger(rnd, {"quick": 120, "thorough": 2500}[tier])
     scs += gens.multisig_wide(rnd, {"quick": 12, "thorough": 120}[tier])
+    scs += gens.check_boundaries()
     # behaviours of the coin-registry menu of the ledger model (tokens: create, recreate, owner change, mint, burn)
     tokens = [dict(s, id="TK" + s["id"]) for s in vlib.tlc_generate("MCLedger", "gen/MCLedgerGen_tokens.cfg", "W1u", "ledger")]
     scs += sample(rnd, tokens, {"quick": 150, "thorough": 3000}[tier])
